@@ -256,6 +256,8 @@ def norm2(ctx, shape, cplx):
     ref = D.tt_full(ctx, cores)
     if not ctx.sym:
         ctx.eq('norm(p=2) == Frobenius norm of the dense tensor', t.norm(p=2) ** 2, D.frob2(ctx, ref), tol=1e-7)
+        ctx.eq('operand unchanged', t.full(), ref)
+        meta_ok(ctx, 'norm2 operand', t)
         return
     from symtt import state, lapack
     free_policy(ctx)
@@ -263,19 +265,22 @@ def norm2(ctx, shape, cplx):
     log = list(state.S.stub_log)
     svds = [c for c in log if c.kind == 'svd']
     norms = [c for c in log if c.kind == 'norm']
-    ctx.check('norm2: %d SVD calls, one norm call' % (d - 1), len(svds) == d - 1 and len(norms) == 1 and log[-1].kind == 'norm')
-    mn = [shape['rows'][i] * shape['cols'][i] for i in range(d)]
-    rk = shape['ranks']
-    cur = cores[d - 1].reshape(rk[d - 1], mn[d - 1] * rk[d])
-    for j, k in enumerate(range(d - 1, 0, -1)):
-        call = svds[j]
-        ctx.eq('norm2: SVD #%d argument == right unfolding of core %d times carried factor' % (j, k), call.a, cur)
-        US = D.matmul(ctx, call.U, _diag(ctx, call.s))
-        left = cores[k - 1].reshape(rk[k - 1] * mn[k - 1], rk[k])
-        cur = D.matmul(ctx, left, US).reshape(rk[k - 1], mn[k - 1] * call.U.shape[1])
-    ctx.eq('norm2: argument of the final norm == first core times carried factor', norms[0].v.reshape(-1), cur.reshape(-1))
-    ctx.check('norm2: the returned value is the result of that norm call', val is norms[0].r)
+    with ctx.group('norm(p=2) == Frobenius norm of the dense tensor'):
+        ok = ctx.check('norm2: %d SVD calls, one norm call' % (d - 1), len(svds) == d - 1 and len(norms) == 1 and log[-1].kind == 'norm')
+        if ok:
+            mn = [shape['rows'][i] * shape['cols'][i] for i in range(d)]
+            rk = shape['ranks']
+            cur = cores[d - 1].reshape(rk[d - 1], mn[d - 1] * rk[d])
+            for j, k in enumerate(range(d - 1, 0, -1)):
+                call = svds[j]
+                ctx.eq('norm2: SVD #%d argument == right unfolding of core %d times carried factor' % (j, k), call.a, cur)
+                US = D.matmul(ctx, call.U, _diag(ctx, call.s))
+                left = cores[k - 1].reshape(rk[k - 1] * mn[k - 1], rk[k])
+                cur = D.matmul(ctx, left, US).reshape(rk[k - 1], mn[k - 1] * call.U.shape[1])
+            ctx.eq('norm2: argument of the final norm == first core times carried factor', norms[0].v.reshape(-1), cur.reshape(-1))
+            ctx.check('norm2: the returned value is the result of that norm call', val is norms[0].r)
     ctx.eq('operand unchanged', t.full(), ref)
+    meta_ok(ctx, 'norm2 operand', t)
     # isometry lemma (certificate): ||W V||^2 - ||W||^2 == sum_ikl W_ik conj(W_il) ((V V^H)_kl - delta_kl)
     p, k, n = 2, 2, 3
     W = ctx.input('W', (p, k), cplx)
@@ -288,7 +293,8 @@ def norm2(ctx, shape, cplx):
             for b in range(k):
                 g = D._get(G, (a, b)) - (ctx.const_frac(1) if a == b else ctx.const_frac(0))
                 rhs = rhs + D._get(W, (i, a)) * ctx.conj(D._get(W, (i, b))) * g
-    ctx.eq('isometry lemma certificate (2x2 . 2x3)', lhs, rhs, form='III')
+    with ctx.group('norm(p=2) == Frobenius norm of the dense tensor'):
+        ctx.eq('isometry lemma certificate (2x2 . 2x3)', lhs, rhs, form='III')
 
 
 def _vecof(ctx, xs):
@@ -321,9 +327,10 @@ def norm1(ctx, shape):
         free_policy(ctx)
         val = t.norm(p=1)
         mx = [c for c in state.S.stub_log if c.kind == 'max']
-        ctx.check('norm1: one max over the column sums', len(mx) == 1 and mx[0].axis is None)
-        ctx.eq('norm1: argument of max == vector of column sums', mx[0].a.reshape(-1), _vecof(ctx, sums))
-        ctx.check('norm1: the returned value is the result of that max', val is mx[0].r)
+        with ctx.group('norm1 == max column sum'):
+            if ctx.check('norm1: one max over the column sums', len(mx) == 1 and mx[0].axis is None):
+                ctx.eq('norm1: argument of max == vector of column sums', mx[0].a.reshape(-1), _vecof(ctx, sums))
+                ctx.check('norm1: the returned value is the result of that max', val is mx[0].r)
     else:
         val = t.norm(p=1)
         ctx.eq('norm1 == max column sum', val, max(float(np.real(s)) for s in sums))
@@ -399,6 +406,7 @@ def residual(ctx, shape, ranks_x, ranks_b, cplx):
     resid = D.sub(ctx, D.matmul(ctx, Am, xm), bm)
     if not ctx.sym:
         ctx.eq('residual_error == ||A x - b||', tt.residual_error(A, x, b) ** 2, D.frob2(ctx, resid), tol=1e-7)
+        ctx.eq('operands unchanged', ctx.cat([D.as_matrix(A.full(), d), D.as_matrix(x.full(), d), D.as_matrix(b.full(), d)]), ctx.cat([Am, xm, bm]))
         return
     from symtt import state, lapack
     free_policy(ctx)
@@ -406,23 +414,24 @@ def residual(ctx, shape, ranks_x, ranks_b, cplx):
     log = list(state.S.stub_log)
     svds = [c for c in log if c.kind == 'svd']
     norms = [c for c in log if c.kind == 'norm']
-    ctx.check('residual_error: %d SVD calls then one norm' % max(d - 1, 0), len(svds) == max(d - 1, 0) and len(norms) == 1)
-    # spec: the TT  A@x - b  built by the real operators; its cores, carried through the same left-to-right sweep
-    cores = _resid_cores(ctx, mk_cores(ctx, 'A', shape, cplx), mk_cores(ctx, 'x', sx, cplx), mk_cores(ctx, 'b', sb, False))
-    ctx.eq('block cores of A x - b contract to the dense residual',
-           D.as_matrix(D.tt_full(ctx, [c.reshape(c.shape[0], c.shape[1], 1, c.shape[2]) for c in cores]), d), resid)
-    M = None
-    for i in range(d):
-        c = cores[i]
-        if M is not None:
-            c = D.tensordot_dense(ctx, M, [1], c, [0])
-        if i < d - 1:
-            call = svds[i]
-            arg = c.reshape(c.shape[0] * c.shape[1], c.shape[2])
-            # the block core of residual_error orders the rank index as [A x block, b block] exactly like (A@x)-b
-            ctx.eq('residual_error: SVD #%d argument == carried factor times block core %d' % (i, i), call.a, arg)
-            M = D.matmul(ctx, _diag(ctx, call.s), call.Vh)
-        else:
-            ctx.eq('residual_error: final norm argument', norms[0].v.reshape(-1), c.reshape(-1))
-            ctx.check('residual_error: the returned value is the result of that norm call', val is norms[0].r)
-    ctx.eq('operands unchanged', D.as_matrix(A.full(), d), Am)
+    with ctx.group('residual_error == ||A x - b||'):
+        ok = ctx.check('residual_error: %d SVD calls then one norm' % max(d - 1, 0), len(svds) == max(d - 1, 0) and len(norms) == 1)
+        # spec: the TT  A@x - b  built by the real operators; its cores, carried through the same left-to-right sweep
+        cores = _resid_cores(ctx, mk_cores(ctx, 'A', shape, cplx), mk_cores(ctx, 'x', sx, cplx), mk_cores(ctx, 'b', sb, False))
+        ctx.eq('block cores of A x - b contract to the dense residual',
+               D.as_matrix(D.tt_full(ctx, [c.reshape(c.shape[0], c.shape[1], 1, c.shape[2]) for c in cores]), d), resid)
+        M = None
+        for i in range(d if ok else 0):
+            c = cores[i]
+            if M is not None:
+                c = D.tensordot_dense(ctx, M, [1], c, [0])
+            if i < d - 1:
+                call = svds[i]
+                arg = c.reshape(c.shape[0] * c.shape[1], c.shape[2])
+                # the block core of residual_error orders the rank index as [A x block, b block] exactly like (A@x)-b
+                ctx.eq('residual_error: SVD #%d argument == carried factor times block core %d' % (i, i), call.a, arg)
+                M = D.matmul(ctx, _diag(ctx, call.s), call.Vh)
+            else:
+                ctx.eq('residual_error: final norm argument', norms[0].v.reshape(-1), c.reshape(-1))
+                ctx.check('residual_error: the returned value is the result of that norm call', val is norms[0].r)
+    ctx.eq('operands unchanged', ctx.cat([D.as_matrix(A.full(), d), D.as_matrix(x.full(), d), D.as_matrix(b.full(), d)]), ctx.cat([Am, xm, bm]))
